@@ -79,8 +79,8 @@ def WSt.script (st : WSt) (a : Aid) : List Action := (st.scripts.lookup a).getD 
 def retFn (a : Aid) (arg : Nat) : Nat := a * 100 + arg
 
 def keyFn (w : World) (k : String) : Option (Aid → Nat) :=
-  if k = "ty" then some (tyOf w) else if k = "mod2" then some (fun a => uidOf w a % 2)
-  else if k = "mod3" then some (fun a => uidOf w a % 3) else none
+  if k = "ty" then some (GroupKey.ty.eval w) else if k = "mod2" then some ((GroupKey.uidMod 2).eval w)
+  else if k = "mod3" then some ((GroupKey.uidMod 3).eval w) else none
 
 def okW (w : World) (res : String) : String :=
   if res = "" then s!"ok || {dumpWorld w}" else s!"ok {res} || {dumpWorld w}"
